@@ -116,12 +116,23 @@ os._exit(0)
 '''
 
 
-def crash_case(site):
+def crash_case(site, watchdog=150):
+    """a 'hang' verdict must not be an artefact of a loaded machine: a resubmission that exceeds the
+    watchdog is repeated once from scratch with a four times longer watchdog"""
+    o = _crash_case(site, watchdog)
+    if o["resubmission_hung"]:
+        o2 = _crash_case(site, watchdog * 4)
+        o2["first_attempt_exceeded_s"] = watchdog
+        return o2
+    return o
+
+
+def _crash_case(site, watchdog):
     tmp = Path(tempfile.mkdtemp(prefix="vf_c12_"))
     try:
         env = dict(os.environ, PYTHONPATH=os.environ.get("PYTHONPATH", "/repo:/verif"), VF_BODY_LOG=str(tmp / "log"))
         env.pop("VF_BODY_DIE", None)
-        r = subprocess.run([sys.executable, "-c", CHILD, site, str(tmp / "root")], env=env, capture_output=True, text=True, timeout=120)
+        r = subprocess.run([sys.executable, "-c", CHILD, site, str(tmp / "root")], env=env, capture_output=True, text=True, timeout=600)
         left = sorted(p.name for p in (tmp / "root").iterdir()) if (tmp / "root").exists() else []
         # resubmission in a second fresh process under a watchdog
         resub = (
@@ -132,7 +143,7 @@ def crash_case(site):
         )
         t0 = time.time()
         try:
-            r2 = subprocess.run([sys.executable, "-c", resub], env=env, capture_output=True, text=True, timeout=60)
+            r2 = subprocess.run([sys.executable, "-c", resub], env=env, capture_output=True, text=True, timeout=watchdog)
             hung = False
         except subprocess.TimeoutExpired:
             r2, hung = None, True
@@ -160,7 +171,7 @@ def crash_case(site):
 def bounded_crashes(ctx):
     dom = ctx.domain(
         "crash-points",
-        bound=f"{len(CRASH_SITES)} kill points (os._exit in a child process running the real Job.run of a python task) followed by a resubmission from a fresh process under a 60 s watchdog",
+        bound=f"{len(CRASH_SITES)} kill points (os._exit in a child process running the real Job.run of a python task) followed by a resubmission from a fresh process under a watchdog (150 s, repeated once with 600 s before a hang is reported)",
         rule="one child + one resubmission per kill point; non-trivial: all",
         exhaustive=True,
     )
@@ -172,7 +183,7 @@ def bounded_crashes(ctx):
             ctx.note(f"kill point {o['site']} was not reached (child exit {o['child_exit']})")
             raise RuntimeError(f"crash harness broken: kill point {o['site']} not reached, child exit {o['child_exit']}")
         if o["resubmission_hung"]:
-            ctx.fail(f"resubmission-hangs@{o['site']}", f"resubmission after a crash at {o['site']} did not finish within 60 s (files left: {o['left_behind']})", o, domain=dom)
+            ctx.fail(f"resubmission-hangs@{o['site']}", f"resubmission after a crash at {o['site']} did not finish within the watchdog (150 s, then 600 s on a second attempt) (files left: {o['left_behind']})", o, domain=dom)
         elif o["resubmission_out"] != "4":
             ctx.fail(f"wrong-or-no-result@{o['site']}", f"resubmission after a crash at {o['site']} returned {o['resubmission_out']!r} ({o['resubmission_err']})", o, domain=dom)
 
